@@ -402,6 +402,16 @@ class Engine(NumpyTheory, Evaluator):
             except Unsupported:
                 continue
             if all(self.value_matches(env[n], parse_type(t), st) for n, t in c.params.items() if n in env):
+                # a variant whose precondition is plainly false for these (concrete) arguments is not the one meant, e.g. fn == 'x.npy'
+                tmp = st.copy()
+                tmp.env = dict(env)
+                if 'G' in st.env:
+                    tmp.env['G'] = st.env['G']
+                try:
+                    if any(z3.is_false(z3.simplify(self.spec_truth(e, tmp))) for lab, e in c.requires if 'G.' not in e and 'self.' not in e):
+                        continue
+                except Unsupported:
+                    pass
                 return c
         raise Unsupported('no contract variant of %s matches the argument types' % cands[0].qual)
 
@@ -556,6 +566,9 @@ class Engine(NumpyTheory, Evaluator):
             return VSlice(*a)
         if name == 'isinstance':
             return VBool(self.isinstance_(args[0], args[1], st))
+        if name == 'enumerate' and args and isinstance(args[0], VFunc) and args[0].kind == 'zip':
+            start = as_int(kw['start']) if 'start' in kw else (as_int(args[1]) if len(args) > 1 else I(0))
+            return VFunc('enumzip', 'enumzip', self_val=start, extra=args[0].extra)
         if name in ('enumerate', 'zip'):
             seqs = [self.range_to_list(a, st) if isinstance(a, VRange) else a for a in args]
             start = as_int(kw['start']) if 'start' in kw else (as_int(args[1]) if name == 'enumerate' and len(args) > 1 else I(0))
@@ -855,7 +868,11 @@ class Engine(NumpyTheory, Evaluator):
         for n, v in zip(names, pos):
             env[n] = v
         if c.varargs:
-            env[c.varargs] = VTuple(pos[len(names):])
+            stars = [a[1] for a in args if isinstance(a, tuple) and a[0] == '*']
+            if stars and len(pos) <= len(names):
+                env[c.varargs] = stars[0]         # f(*list_of_arrays): the star argument as a whole
+            else:
+                env[c.varargs] = VTuple(pos[len(names):])
         for k, v in kw.items():
             if k == '**':
                 continue
@@ -1236,6 +1253,12 @@ class Engine(NumpyTheory, Evaluator):
         return [st]
 
     def st_Assert(self, stmt, st):
+        text = ' '.join(ast.unparse(stmt).split())
+        for pref in self.cur.assume_asserts:
+            if text.startswith('assert ' + ' '.join(pref.split())):
+                self.assumed_used.add('A-ASSERT %s: `%s` is assumed to hold (not proved; exercised by the bounded stand-in)' % (self.cur.key, text[:120]))
+                st.assume(self.truth(self.ev(stmt.test, st), st))
+                return [st]
         c = self.truth(self.ev(stmt.test, st), st)
         self.oblige(st, 'assert', 'code-assert', c, stmt, raises='AssertionError')
         return [st]
@@ -1496,6 +1519,8 @@ class Engine(NumpyTheory, Evaluator):
             seqs, targets_kind = it.extra, 'enumerate'
         elif isinstance(it, VFunc) and it.kind == 'zip':
             seqs, targets_kind = it.extra, 'zip'
+        elif isinstance(it, VFunc) and it.kind == 'enumzip':
+            seqs, targets_kind = it.extra, 'enumzip'
         elif isinstance(it, (VList, VTuple, VGen)):
             seqs, targets_kind = [it], 'plain'
         else:
@@ -1530,6 +1555,8 @@ class Engine(NumpyTheory, Evaluator):
                 val = VTuple([VInt(k + it.self_val), elems[0]])
             elif targets_kind == 'zip':
                 val = VTuple(elems)
+            elif targets_kind == 'enumzip':
+                val = VTuple([VInt(k + it.self_val), VTuple(elems)])
             else:
                 val = elems[0]
             self.assign(stmt.target, val, h)
